@@ -201,6 +201,7 @@ def write_evidence(reg, prop, tier, seed, results, obligations, discharged, refu
         d = r.get("describe") or {}
         funcs.append({"task": r["task"], "function": d.get("function"), "file": d.get("file"), "lines": d.get("lines"),
                       "sha256": d.get("sha256"), "paths": r.get("paths"), "variants": r.get("variants"),
+                      "gen_s": r.get("gen_s"), "solve_s": r.get("solve_s"), "cached": bool(r.get("cached")),
                       "obligations": len(r["obligations"]),
                       "discharged": sum(1 for o in r["obligations"] if o["status"] == "unsat"),
                       "out_of_reach": r.get("out_of_reach")})
